@@ -838,6 +838,10 @@ func (s *refState) step(lineno int, words []string) outcome {
 			return lineFail
 		}
 		last := args[len(args)-1]
+		if len(args) == 1 && regexp.MustCompile(`^&([a-zA-Z_0-9]+&)?$`).MatchString(last) {
+			// "exec &name&": a background specifier and no program (usage error, like "exec &")
+			return lineFail
+		}
 		if m := regexp.MustCompile(`^&([a-zA-Z_0-9]+&)?$`).MatchString(last); m {
 			name := strings.TrimSuffix(strings.TrimPrefix(last, "&"), "&")
 			if name != "" {
